@@ -42,9 +42,12 @@ LEVEL_TEXT = ('Kernel-checked: from a consistent state, any interleaving of edit
               'implementation for every read (monitor), not proved.')
 LEVEL_NOTE = ('Strength: kernel. Trusted: Coq kernel; hand-written model tied by exported-graph cases and the monitor. '
               'The executable model is shown to refine the kernel for data edits, schema edits (ALL_ROWS with '
-              'clear_dependencies) and one evaluation step with eagerly covered reads; NOT proved (kept as the statement '
-              'C05_eval_step_refines_statement): the evaluation step with lazily tracked lookup reads and the '
-              'post-invalidation of lookup-map cells. The scheduler is C06/C18. Known finding: programs cyclic through '
+              'clear_dependencies), one evaluation step with eagerly and lazily (lookup) tracked reads, and the '
+              're-evaluation of a lookup-map cell with its post-invalidation; invalidate_deps terminates within an '
+              'explicit fuel bound; abstract scheduler: any interleaving of picks of ready cells (also with '
+              'post-invalidation of higher-ranked cells) is finite, stops only at quiescence and then holds the scratch '
+              'values. Not modelled: multi-key/CONTAINS index cells (sets of keys per row), the sorted-lookup helper, '
+              'and the concrete order of Engine._update_loop (C06/C18). Known finding: programs cyclic through '
               'a lookup. Repaired (eb8849a, witness replayed first each run): RecordSet.<RefList column> recorded a '
               'dependency with the wrong relation.')
 PROOF_TIMEOUT = 900
@@ -455,6 +458,28 @@ def known_kind(kind):
   return kind in (SORT_HELPER, LOOKUP_SCHEMA, SUMMARY_HELPER, 'cyclic-through-lookup')
 
 
+SHAPES = [
+  ('plain-field', r'\$\w+|rec\.\w+'), ('ref-chain', r'\$\w+\.\w+'), ('ref-chain-2', r'\$\w+\.\w+\.\w+'),
+  ('reflist-field', r'list\(\$\w+\.\w+\)|for \w+ in \$\w+|len\(\$\w+\)'),
+  ('lookupRecords', r'lookupRecords\('), ('lookupOne', r'lookupOne\('), ('lookup-CONTAINS', r'CONTAINS\('),
+  ('lookup-order_by', r'order_by=|sort_by='), ('lookup-multi-key', r'lookup\w+\(\w+=[^,)]+, \w+=\$'),
+  ('table.all', r'\w+\.all\b'), ('summary-group', r'\$group'), ('PREVIOUS', r'PREVIOUS\('), ('NEXT', r'NEXT\('),
+  ('RANK', r'RANK\('), ('recordset-field (RefList flatten)', r'lookupRecords\([^)]*\)\.\w+|\$group\.\w+'),
+]
+
+
+def shape_classifier(e):
+  """node -> list of formula shapes of that column (by its formula text in the metadata)."""
+  import re
+  meta = histgen.Meta(e)
+  table = {}
+  for c in meta.cols.values():
+    t = meta.tables.get(c['parentId'])
+    if t is not None and c['formula']:
+      table[(t['tableId'], c['colId'])] = [name for name, rx in SHAPES if re.search(rx, c['formula'])]
+  return lambda node: table.get((node.table_id, node.col_id), []) if not node.table_id.startswith('_grist_') else []
+
+
 def monitored_history(ctx, seed, nb, cases_per_hist):
   r = random.Random(seed)
   gen = c05lib.Gen05(r) if r.random() < 0.75 else histgen.HistGen(r)
@@ -469,9 +494,13 @@ def monitored_history(ctx, seed, nb, cases_per_hist):
       ok = c05lib.apply_or_clean(e, copy.deepcopy(bundle), gen) is not None
       history.append(bundle)
       ctx.bump('monitor:bundle_ok' if ok else 'monitor:bundle_failed')
-      problems, st = m.check(limit=3)
+      problems, st = m.check(limit=3, shapes_of=shape_classifier(e))
       for k2, v in st.items():
-        ctx.bump('monitor:' + k2, v)
+        if k2.startswith('shape-'):
+          kind2, sh = k2.split(':', 1)
+          ctx._c05_shapes.setdefault(sh, {'cells': 0, 'reads': 0})['cells' if kind2 == 'shape-cells' else 'reads'] += v
+        else:
+          ctx.bump('monitor:' + k2, v)
       ctx.count(('mon', seed, step), nontrivial=(st.get('reads', 0) + st.get('lookups', 0)) > 0, kind='monitor:bundles',
                 sample={'seed': seed, 'bundle': bundle, 'cells': st.get('cells', 0), 'reads': st.get('reads', 0),
                         'lookups': st.get('lookups', 0)} if step == 4 else None)
@@ -490,10 +519,42 @@ def monitored_history(ctx, seed, nb, cases_per_hist):
   return m
 
 
+def monitored_script(ctx, hist):
+  """A fixed list of bundles replayed under the monitor (checked after every bundle)."""
+  e, _ = G.new_doc()
+  m = depsenv.Monitor(e)
+  depsenv.Monitor.active = m
+  done = []
+  try:
+    for step, bundle in enumerate(hist):
+      c05lib.apply_or_clean(e, copy.deepcopy(bundle))
+      done.append(bundle)
+      problems, st = m.check(limit=3, shapes_of=shape_classifier(e))
+      for k2, v in st.items():
+        if k2.startswith('shape-'):
+          kind2, sh = k2.split(':', 1)
+          ctx._c05_shapes.setdefault(sh, {'cells': 0, 'reads': 0})['cells' if kind2 == 'shape-cells' else 'reads'] += v
+        else:
+          ctx.bump('monitor:' + k2, v)
+      ctx.count(('mon-script', len(ctx._c05_shapes), step, repr(bundle)[:80]),
+                nontrivial=(st.get('reads', 0) + st.get('lookups', 0)) > 0, kind='monitor:bundles')
+      for p in problems[:3]:
+        if flatten_sig(p):
+          ctx.violation('monitor:' + FLATTEN, p[1], {'mode': 'monitor', 'problem': p[0],
+                                                     'history': copy.deepcopy(done[:-1]), 'bundle': copy.deepcopy(bundle)})
+          continue
+        ctx.broken('monitor:' + p[0], '%s  [directed history step %d, last bundle %r]' % (p[1], step, bundle))
+        exploit(ctx, e, m, p, done)
+  finally:
+    depsenv.Monitor.active = None
+  return m
+
+
 def correspond(ctx):
   depsenv.Monitor.install()
   ctx._c05_cases = []
   ctx._c05_case_info = []
+  ctx._c05_shapes = {name: {'cells': 0, 'reads': 0} for name, _rx in SHAPES}
   ctx._c05_case_budget = ctx.n(400, 4000)
   t0 = time.time()
   budget = ctx.n(18, 420)
@@ -505,7 +566,17 @@ def correspond(ctx):
     m = monitored_history(ctx, ctx.rng.randrange(1 << 30), ctx.n(8, 12), ctx.n(6, 4))
     evals += m.evals
     n += 1
+  evals += monitored_script(ctx, c05lib.shape_tour()).evals
+  n += 1
+  for i in range(ctx.n(12, 200)):       # the small documents of named shapes (reference chains, blank references, ...)
+    hr = random.Random(ctx.rng.randrange(1 << 30))
+    evals += monitored_script(ctx, c05lib.blankref_history(hr) if hr.random() < 0.3 else c05lib.directed_history(hr)).evals
+    n += 1
   ctx.extra['monitor_histories'] = n
+  ctx.extra['monitor_coverage_by_formula_shape'] = ctx._c05_shapes     # cell checks / read checks per shape; 0 = never exercised
+  for sh, v in ctx._c05_shapes.items():
+    if not v['reads']:
+      ctx.notes.append('monitor: formula shape %r was not exercised in this run' % sh)
   ctx.extra['monitor_cell_evaluations'] = evals
   ctx.log('monitor: %d histories, %d cell evaluations, %d model cases' % (n, evals, len(ctx._c05_cases)))
   bad = ctx.run_cases('inval', ['Grist.Model.Deps', 'Grist.Model.DepsSpec', 'Grist.Model.DepsExec', 'Grist.Lib.DepsCases'],
